@@ -108,7 +108,13 @@ def run(ctx):
                         'fields read: %s' % sorted(reads), af.loc())
 
     # ---- (d)
-    ctx.r1('d', MKM + '::verify', Sink('sub proof MKProof/MKMapProof::verify (each)', [MK + '::verify', MKM + '::verify'], 'ok', per_item=True))
+    # sub proofs are MKMapProof values: each must be verified recursively (its own sub proofs and linkage included),
+    # not only its master proof
+    def _on_sub(body, c):
+        from engine import fn_origins as _fo
+        return any(glob_match('pty:MKMapProof.sub_proofs*', o) for o in _fo(body.fn, c.args[0], True)) and \
+            not any(glob_match('pty:MKMapProof.master_proof*', o) for o in _fo(body.fn, c.args[0], 'adapters'))
+    ctx.r1('d', MKM + '::verify', Sink('recursive MKMapProof::verify of each sub proof', [MKM + '::verify'], 'ok', per_item=True, arg_filter=_on_sub))
     mv = ctx.try_fn('d', MKM + '::verify')
     if mv is not None:
         body = mv.body
